@@ -10,6 +10,7 @@ import Robsd.Model.Schedule
 import Robsd.Model.Exec
 import Robsd.Model.Clean
 import Robsd.Model.Orch
+import Robsd.Model.Flock
 /-
   robsd_model: the executable models behind a line protocol.
   One request per line: `<component> <op> <args…>`; byte strings are hex
@@ -136,8 +137,37 @@ def evOf (s : String) : Option Orch.Ev :=
   | "E" :: i :: [] => some (.endRec (i.toNat?.getD 0))
   | _ => none
 
+/-- proc spec: `W:<id>:<kv;kv>` or `R:<sel>:<tmpl>` -/
+inductive PSpec where
+  | w (id : Int) (kvs : List Bytes)
+  | r (sel : StepFile.Sel) (tmpl : Bytes)
+
+def pspecOf (s : String) : Option PSpec :=
+  match s.splitOn ":" with
+  | "W" :: id :: kvs :: [] => some (.w (id.toInt?.getD 0) ((if kvs == "." then [] else kvs.splitOn ";").map hexArg))
+  | "R" :: k :: v :: t :: [] => some (.r (if k == "n" then .name (hexArg v) else .idx (v.toInt?.getD 0)) (hexArg t))
+  | _ => none
+
+def flockRun (c0 : Bytes) (sched : List Nat) (specs : List PSpec) : String :=
+  let sys : Flock.Sys := ⟨fun p => match specs[p]? with
+    | some (.w id kvs) => some (fun c => (StepFile.writeCmd c id kvs .ok).2)
+    | _ => none⟩
+  let s := Flock.runSched sys (Flock.init c0) sched
+  let outs := (List.range specs.length).map fun p =>
+    match specs[p]? with
+    | some (.r sel t) =>
+      if (s.procs p).pc == .done then
+        let r := StepFile.readCmd (s.procs p).snapshot sel t
+        s!"{r.1}:{toHex r.2}"
+      else "-"
+    | some (.w id kvs) =>
+      if (s.procs p).pc == .done then s!"{(StepFile.writeCmd (s.procs p).snapshot id kvs .ok).1}:-" else "-"
+    | none => "-"
+  s!"{toHex s.content} " ++ ",".intercalate (s.order.map toString) ++ " " ++ " ".intercalate outs
+
 def handle (ws : List String) : String :=
   match ws with
+  | "flock" :: c0 :: sched :: specs => flockRun (hexArg c0) (natList sched) (specs.filterMap pspecOf)
   | "orchp" :: "accepts" :: ncpu :: skip :: evs :: [] =>
     let c : Orch.Cfg := ⟨ncpu.toNat?.getD 1, fun j => (natList skip).contains j⟩
     if Orch.accepts c ((listOf evs).filterMap evOf) then "accept" else "reject"
